@@ -630,6 +630,80 @@ def fam_encodings(C, quick):
     C.add_doc("encoding", cs, "authz", "soap", g.request_xml(r), _named(dict(valid=True, modified=False, wrap=None), "none"), r)
 
 
+def _site_quick_bindings(s, n, kind):
+    """quick tier: every site over every binding when it is shallow (root, one or two levels down); the deep xml-enc /
+    evidence sites rotate over the bindings"""
+    bs = [b for b in MAIN_B if not (kind == "authz" and b == "soap")]
+    if s["depth"] <= 2:
+        return bs
+    return [bs[n % len(bs)]]
+
+
+def fam_empty_required(C, quick):
+    """REQUIRED ATTRIBUTES PRESENT BUT EMPTY.  Every required attribute reachable from each request kind (c10_empty.sites:
+    walked over the reflected schema tables, root ID / Version / IssueInstant / Resource down to Scoping/IDPList/IDPEntry
+    ProviderID, Subject/SubjectConfirmation Method, Attribute Name, Action Namespace, Evidence/Assertion..., EncryptedID
+    .../EncryptionMethod Algorithm, CipherReference URI) in three variants on the SAME enriched request: good value
+    (control, must be handed over), X="" and X absent (both must be refused) - unsigned, and genuinely SIGNED with the
+    attribute already empty towards a receiver that wants signatures (the signature verifies: only valid_instance stands
+    between the request and the application).  Order on each long-lived receiver: control, empty, absent, control again."""
+    import c10_empty as E
+    n = 0
+
+    def one(cs, kind, bname, i, s, sign, via=None):
+        issuer = SENDER[cs["etype"]]
+        own = [u for u in g.own_endpoints(cs, KINDS[kind]["service"], bname) if u]
+        for variant, tag in (("base", "first"), ("empty", None), ("absent", None), ("base", "again")):
+            r = dict(rspec(kind=kind, issuer=issuer, destination=own[0] if own else None), site=[i, variant])
+            try:
+                x = g.request_xml(r, sign=sign)
+            except Exception as e:
+                C.ctx.count("empty-required:not-buildable:%s:%s:%s" % (variant, "signed" if sign else "unsigned", type(e).__name__))
+                continue
+            if variant == "empty" and ('%s=""' % E_XML[s["attr"]]) not in x:
+                raise AssertionError("the generator lost the empty attribute: %s" % s["label"])
+            name = "none" if variant == "base" else "required-%s:%s:%s" % (variant, kind, s["label"])
+            C.add_doc("empty-required", cs, kind, bname, x, _named(dict(valid=variant == "base", modified=False, wrap=None), name),
+                      r, signer=sign, via=via, tag=tag, note="%s %s" % (variant, s["label"]))
+            C.ctx.count("empty-required:%s:depth-%d:%s" % (variant, s["depth"], "signed" if sign else "unsigned"))
+
+    for kind in KIND_ORDER:
+        for i, s in enumerate(E.sites(kind)):
+            n += 1
+            if not s["table_required"]:
+                C.ctx.oracle_fail("required-attribute-table:%s.%s" % (s["cls"], s["attr"]),
+                                  "the schema table of the working tree no longer marks %s.%s as required (SAML 2.0 / XML-Enc schema: use=required)"
+                                  % (s["cls"], s["attr"]), dict(cls=s["cls"], attr=s["attr"]))
+            if not s["documented"]:
+                C.ctx.count("empty-required:required-in-the-table-only:%s.%s" % (s["cls"], s["attr"]))
+            for bname in (_site_quick_bindings(s, n, kind) if quick else [b for b in MAIN_B if not (kind == "authz" and b == "soap")]):
+                one(cfgspec(), kind, bname, i, s, None)
+                one(cfgspec(want=True), kind, bname, i, s, "sp")
+                if not quick:
+                    one(cfgspec(ovc=True), kind, bname, i, s, "sp")
+                    one(cfgspec(want=True), kind, bname, i, s, None)
+    # a stand-alone attribute authority, an SP (LogoutRequest / ManageNameIDRequest of the IdP), and the library's own consumer
+    for etype, eps, kinds in [("aa", "aa-only", ["attrq", "authnq", "logout"]), ("sp", "sp-full", ["logout", "mni"])]:
+        for kind in kinds:
+            for i, s in enumerate(E.sites(kind)):
+                if quick and s["depth"] > 2:
+                    continue
+                for bname in ["soap", "post"]:
+                    one(cfgspec(etype=etype, eps=eps), kind, bname, i, s, None)
+                    one(cfgspec(etype=etype, eps=eps, want=True if etype == "aa" else None), kind, bname, i, s, SENDER_KEY[etype])
+    for i, s in enumerate(E.sites("logout")):
+        if quick and s["depth"] > 2:
+            continue
+        for bname in ["soap", "post"]:
+            one(cfgspec(etype="sp", eps="sp-full"), "logout", bname, i, s, None, via="handle_logout_request")
+            one(cfgspec(etype="sp", eps="sp-full"), "logout", bname, i, s, "idp", via="handle_logout_request")
+
+
+E_XML = {"id": "ID", "version": "Version", "issue_instant": "IssueInstant", "provider_id": "ProviderID", "method": "Method", "name": "Name",
+         "namespace": "Namespace", "resource": "Resource", "decision": "Decision", "algorithm": "Algorithm", "uri": "URI",
+         "authn_instant": "AuthnInstant"}
+
+
 PLAIN = dict(valid=True, modified=False, wrap=None, name="none")
 _SLACKS = [None, 0, 60, 300]
 
@@ -827,6 +901,7 @@ def run(ctx):
         fam_wrong_root(C, ctx.quick)
         fam_encodings(C, ctx.quick)
         fam_optional(C, ctx.quick)
+        fam_empty_required(C, ctx.quick)
         fam_history(C, ctx.quick, ctx.rng)
         fam_random(C, ctx.quick, ctx.rng)
     ctx.exhaustive = False
